@@ -32,9 +32,9 @@ func VH_C18_SignedSubsetEncode() {
 			"https://example.org/c":  {Hashes: []*ResourceIntegrity{{h3, "digest/mi-sha256-03"}}},
 		}}
 	other := &SignedSubset{ValidityUrl: c06URL("https://example.org/w"), AuthSha256: []byte{1}, Date: time.Unix(1, 0), Expires: time.Unix(2, 0), SubsetHashes: map[string]*ResponseHashes{}}
-	o1, e1 := ss.Encode()
-	other.Encode()
-	o2, e2 := ss.Encode()
+	o1, e1 := vh.Isolated(ss.Encode) // write-set recorder on
+	vh.Isolated(other.Encode)
+	o2, e2 := vh.Isolated(ss.Encode)
 	vh.Assert(e1 == nil && e2 == nil && bytes.Equal(o1, o2), "same logical input, same bytes (any map order, repeated, interleaved)")
 	ok := len(ss.SubsetHashes) == 3
 	for _, b := range [][]byte{b1, b2, b3} {
